@@ -4,7 +4,10 @@ Part 1 (drivers).  A chain  pre* acc post*  is described by a JSON spec, built a
 lena elements and driven by
     * Sequence(*chain).run(flow),
     * Split([chain], bufsize=b).run(flow)  (chain given as a tuple / as a FillComputeSeq / as the bare accumulator; alone
-      or next to tagged companion branches; b in {1..n+1, 1000, None}),
+      or next to tagged companion branches; b in {1..n+1, 1000, None}); the companions include branches that update
+      the values of their copy of the block IN PLACE and then stop (LenaStopFill from a Slice(K) behind the updating
+      element, K = every index of the flow, fill/compute and fill/request kind) or never stop: "a branch of a Split"
+      must give the chain's own result whatever the other branches do to what they are given,
     * FillComputeSeq(*chain): fill value by value until LenaStopFill, then compute(),
     * FillSeq(*pre, acc): fill value by value until LenaStopFill, then Sequence(*post).run(acc.compute())
       (also with the FillSeq nested as FillSeq(pre[:k], FillSeq(pre[k:], acc))).
@@ -445,8 +448,30 @@ def drv_fillseq(chain, flow, nest=None):
     return Sequence(*post).run(acc.compute())
 
 
+def _inplace(v):
+    """an element that updates the context of the value in place (nothing to update in a bare data value)"""
+    if has_ctx(v):
+        c = v[1]
+        for x in list(c.values()):
+            if isinstance(x, dict):
+                x["leak"] = 1
+            elif isinstance(x, list):
+                x.append("leak")
+        c["leak"] = c.get("leak", 0) + 1
+    return v
+
+
+def _other(v):
+    return OTHER
+
+
+MUTATING_STOPPING = ("fcmut", "fcvar", "frmut")
+MUTATING = ("seqmut", "fcallmut", "frallmut")
+
+
 def companion(kind_):
-    """a tagged companion branch: everything it yields is the OTHER object"""
+    """a tagged companion branch: everything it yields is the OTHER object.  "<kind>:<K>" kinds update every value
+    they are given in place and stop on value #K (Slice(K) BEHIND the updating element)"""
     if kind_ == "fc":       # a fill/compute branch that stops after one value
         return (lena.flow.Slice(1), lena.flow.StoreFilled(), lambda v: OTHER)
     if kind_ == "fcall":    # a fill/compute branch that never stops
@@ -455,6 +480,24 @@ def companion(kind_):
         return (lambda v: OTHER,)
     if kind_ == "src":
         return Source(lena.flow.CountFrom(0), lena.flow.Slice(2), lambda v: OTHER)
+    if kind_ == "seqmut":   # a Sequence branch that updates the values in place
+        return (_inplace, _other)
+    if kind_ == "fcallmut":  # a fill/compute branch that updates the values in place and never stops
+        return (_inplace, lena.variables.Variable("comp", lambda d: d), lena.flow.StoreFilled(), _other)
+    if kind_ == "frallmut":  # a fill/request branch that updates the values in place and never stops
+        return lena.core.FillRequestSeq(
+            _inplace, lena.core.FillRequest(lena.flow.StoreFilled(), reset=True, buffer_input=True), _other,
+            reset=False, buffer_input=True)
+    name, _, k = kind_.partition(":")
+    if name == "fcmut":
+        return (_inplace, lena.flow.Slice(int(k)), lena.flow.StoreFilled(), _other)
+    if name == "fcvar":     # the framework's own in-place update: Variable writes into the context of the value
+        return (lena.variables.Variable("comp", lambda d: d), lena.flow.Slice(int(k)), lena.math.Sum(), _other)
+    if name == "frmut":
+        return lena.core.FillRequestSeq(
+            _inplace, lena.flow.Slice(int(k)),
+            lena.core.FillRequest(lena.flow.StoreFilled(), reset=True, buffer_input=True), _other,
+            reset=False, buffer_input=True)
     raise ValueError(kind_)
 
 
@@ -496,8 +539,13 @@ def driver_label(d):
     lab = DRIVER_NAME[d[0]]
     if d[0] == "split":
         form = d[2] if len(d) > 2 else "tuple"
-        comp = (len(d) > 3 and d[3]) or (len(d) > 4 and d[4])
-        lab += "(%s%s)" % (form, ",companions" if comp else "")
+        comp = list((len(d) > 3 and d[3]) or ()) + list((len(d) > 4 and d[4]) or ())
+        names = set(c.partition(":")[0] for c in comp)
+        # interference by a companion that changed its values in place (and stopped) is another defect than a
+        # wrong treatment of the chain next to companions that leave the values alone
+        lab += "(%s%s)" % (form, ",companions-updating-in-place-then-stopping" if names & set(MUTATING_STOPPING) else
+                           ",companions-updating-in-place" if names & set(MUTATING) else
+                           ",companions" if comp else "")
     if d[0] == "fillseq" and len(d) > 1 and d[1] is not None:
         lab += "(nested)"
     return lab
@@ -651,6 +699,8 @@ def make_flow(kind_, L):
         return [(i, {"i": i}) for i in range(L)]
     if kind_ == "mixed":
         return [(i, {"i": i, "n": {"k": [i]}}) if i % 2 else i for i in range(L)]
+    if kind_ == "nested":
+        return [(i, {"i": i, "n": {"k": [i]}, "l": [i]}) for i in range(L)]
     raise ValueError(kind_)
 
 
@@ -1374,6 +1424,45 @@ def body(R):
                     R.case(True)
                     n_exec += check_case(R, sh, chain, flow, drivers)
 
+    # ---- scope 2c: the chain as a Split branch next to branches that update their values in place and stop --------------
+    # "a branch of a Split with any bufsize": what another branch did to ITS copy of a block before it stopped (value
+    # #K and the values before it were updated in place when the Slice(K) behind the updating element raises
+    # LenaStopFill) must not reach the chain, wherever the stopping branch stands, for every K and every bufsize.
+    pre2c_quick = [["call", "inc"], ["var", "v", "dbl"], ["filter", "even"], ["slice", [2]], ["slice", [1, 3]],
+                   ["runif", "even", [["dup"]]]]
+    pre2c = [[]] + [[p_] for p_ in (pre2c_quick if not thorough else PRE_SMALL + PRE_MORE)]
+    accs2c = [["store", False], ["sum"]] if not thorough else [["store", False], ["sum"], ["count"], ["mean", True]]
+    maxL2c = 5 if not thorough else 6
+    flows2c = [("nested", L) for L in range(0, maxL2c + 1)] + [("mixed", 4)]
+    stop_types = ["fcmut", "frmut"] + (["fcvar"] if thorough else [])
+    # (before, after) around the chain; "@" is the stopping companion
+    layouts = [(("@",), ()), (("@",), ("fcallmut",)), (("seqmut", "@"), ()), ((), ("@",))]
+    if thorough:
+        layouts += [(("@",), ("seq", "fcall")), (("frallmut", "@"), ("fc",)), (("@", "src"), ("fcallmut",))]
+    R.scope("drivers: the chain as a Split branch next to branches that update values in place and then stop",
+            "all chains with <= 1 pre element from %d pre kinds x %d accumulators, no post; flows of (data, nested "
+            "context) values of length L = 0..%d and one mixed flow of 4; a companion branch (in-place update, Slice(K), "
+            "accumulator) of kind %r for every K in 0..L (K = L: it never stops) in the layouts %r (@ = the stopping "
+            "companion, fcallmut / frallmut / seqmut = never-stopping fill-compute / fill-request / Sequence branches "
+            "that update in place); Split bufsize in {1..L+1, None}; copy_buf=True"
+            % (len(pre2c) - 1, len(accs2c), maxL2c, stop_types, layouts), True)
+    for pres in pre2c:
+        for acc in accs2c:
+            chain = (list(pres), acc, [])
+            for fk, L in flows2c:
+                flow = make_flow(fk, L)
+                drivers = []
+                for K in range(L + 1):
+                    for t in stop_types:
+                        st = "%s:%d" % (t, K)
+                        for before, after in layouts:
+                            bf = tuple(st if c == "@" else c for c in before)
+                            af = tuple(st if c == "@" else c for c in after)
+                            for b in list(range(1, L + 2)) + [None]:
+                                drivers.append(["split", b, "tuple", bf, af, True])
+                R.case(True, {"chain": chain, "flow": flow, "drivers": len(drivers)})
+                n_exec += check_case(R, sh, chain, flow, drivers)
+
     # ---- scope 3: random chains ------------------------------------------------------------------------------------
     n3 = 40000 if thorough else 2500
     R.scope("drivers: random chains, companions in the Split",
@@ -1381,7 +1470,9 @@ def body(R):
             "RunIf with 0..3 inner elements, Variable, callables, Call(el, call=name)), any of %d accumulator kinds "
             "incl. Split-of-accumulators, 0..3 post elements (negative Slice, Reverse, Count, second accumulator, End, "
             "RunningChunkBy, ...); flows of length 0..8 with/without/mixed contexts; Split bufsize from {1..L+1, 1000, "
-            "None}, chain first/middle/last among source / fill-compute / sequence companions, copy_buf on/off"
+            "None}, chain first/middle/last among source / fill-compute / sequence companions, copy_buf on/off; "
+            "with copy_buf on also among 0..5 companions that update their values in place (fill-compute / fill-request "
+            "/ Sequence branches, with a Slice(K <= L) behind the updating element or never stopping)"
             % (n3, len(ACC_SMALL) + len(ACC_MORE)), False)
     comps = ["fc", "fcall", "seq", "src"]
     for _ in range(n3):
@@ -1397,6 +1488,13 @@ def body(R):
             before = tuple(rng.choice(comps) for _ in range(rng.choice([0, 1, 2])))
             after = tuple(rng.choice(comps) for _ in range(rng.choice([0, 1, 2])))
             drivers.append(["split", rng.choice(bs), rng.choice(["tuple", "fcs"]), before, after, rng.random() < 0.8])
+        # companions that update their values in place (only meaningful with copy_buf=True)
+        for _k in range(2 if thorough else 1):
+            mcomps = comps + ["seqmut", "fcallmut", "frallmut"] + \
+                ["%s:%d" % (t, rng.randint(0, L)) for t in MUTATING_STOPPING for _ in range(2)]
+            before = tuple(rng.choice(mcomps) for _ in range(rng.choice([0, 1, 1, 2, 3])))
+            after = tuple(rng.choice(mcomps) for _ in range(rng.choice([0, 1, 2])))
+            drivers.append(["split", rng.choice(bs), rng.choice(["tuple", "fcs"]), before, after, True])
         R.case(True, {"chain": chain, "flow": flow})
         n_exec += check_case(R, sh, chain, flow, drivers)
 
